@@ -1,7 +1,7 @@
 SPECIFICATION GSpec
 CONSTANTS
   Exprs = {1, 2, 3}
-  Ctxs = {0, 1, 2, 3, 4}
+  Ctxs = {0, 1, 2, 3, 4, 5, 6}
   DefaultCtx = 0
   Handles = {1, 2, 3}
   Iters = {1, 2}
